@@ -39,7 +39,7 @@ func init() {
 					u = append(u, fmt.Sprintf("directive combination %d never compiled", o))
 				}
 			}
-			for _, c := range []string{"snapshots_compared", "repeat_compilations", "shuffled_compilations", "aliasing_probes_copyconfig", "aliasing_probes_extendconf", "nil_map_configs", "big_list_constants", "undefined_mode_sources", "infix_sources", "sources_with_plain_comment_before_directive", "compile_errors_snapshotted", "nil_config_compilations"} {
+			for _, c := range []string{"snapshots_compared", "repeat_compilations", "shuffled_compilations", "aliasing_probes_copyconfig", "aliasing_probes_extendconf", "nil_map_configs", "big_list_constants", "undefined_mode_sources", "infix_sources", "sources_with_plain_comment_before_directive", "compile_errors_snapshotted", "nil_config_compilations", "edited_config_compilations"} {
 				if m.C(c) == 0 {
 					u = append(u, c+" = 0")
 				}
@@ -108,6 +108,8 @@ type c08Case struct {
 	tree  *Node
 	binds []Binding
 	desc  string
+
+	nilMaps bool
 }
 
 func c08Directive(r *rand.Rand, w *W) string {
@@ -216,7 +218,7 @@ func c08Make(w *W, r *rand.Rand, k int) *c08Case {
 		// a source that does not compile: the config must stay untouched as well
 		src = mutateSource(r, src, w)
 	}
-	c := &c08Case{cc: mk(), mk: mk, src: src, tree: tree, binds: genBindings(r, tree, 3, 0.05)}
+	c := &c08Case{cc: mk(), mk: mk, src: src, tree: tree, binds: genBindings(r, tree, 3, 0.05), nilMaps: nilMaps}
 	c.desc = fmt.Sprintf("%s nil-maps=%v", cfg, nilMaps)
 	if hasDirective || (!nilMaps && len(cfg.Costs) > 0 && len(cfg.VarNames) > 0) {
 		w.Nontrivial(c.desc, src)
@@ -326,6 +328,73 @@ func c08Run(w *W, idx int) {
 	}
 	c08Aliasing(w, r, cases[0])
 	c08NilConfig(w, r)
+	// The caller edits its Config between two compilations (same object): the second compilation is a function of the
+	// new contents, i.e. it gives what an equal Config that was never compiled with gives.
+	for i, c := range cases {
+		if first[i] == nil || c.nilMaps {
+			continue
+		}
+		used, fresh := c.mk(), c.mk()
+		if c08Compile(w, c, used, "compilation before the caller edits the Config") == nil {
+			continue
+		}
+		seed := r.Int63()
+		c08Edit(used, seed)
+		c08Edit(fresh, seed)
+		a := c08Compile(w, c, used, "compilation after the caller edited the Config")
+		b := c08Compile(w, c, fresh, "equal Config that was never compiled with")
+		w.Inc("edited_config_compilations")
+		if a != nil && b != nil {
+			if d := c08Same(b, a); d != "" {
+				w.Fail("compile-not-deterministic/edited-config", "after the caller edited its Config (stateless list entries replaced in place, operator implementations exchanged, a constant changed), Compile gives a different program than with an equal Config that was never used: %s\nsource: %q\nconfig: %s", d, firstN(c.src, 1500), c.desc)
+			}
+		}
+	}
+}
+
+// c08Edit changes a Config in place the way a caller may between compilations; the same seed gives the same edit.
+func c08Edit(cc *eval.Config, seed int64) {
+	r := rand.New(rand.NewSource(seed))
+	// stateless list: entries replaced in place by their undeclared twins and back (the length does not change)
+	for i, n := range cc.StatelessOperators {
+		if len(n) > 1 && r.Intn(2) == 0 {
+			switch n[0] {
+			case 's':
+				if _, ok := cc.OperatorMap["c"+n[1:]]; ok {
+					cc.StatelessOperators[i] = "c" + n[1:]
+				}
+			}
+		}
+	}
+	// operator implementations exchanged between names of equal signature
+	for _, pair := range [][2]string{{"si", "ci"}, {"sz", "cz"}, {"ss", "cs"}} {
+		if r.Intn(2) == 0 {
+			a, okA := cc.OperatorMap[pair[0]]
+			_, okB := cc.OperatorMap[pair[1]]
+			if okA && okB {
+				// the stateless name now runs a function of the same shape with another result
+				base := a
+				cc.OperatorMap[pair[0]] = func(ctx *eval.Ctx, p []eval.Value) (eval.Value, error) {
+					v, err := base(ctx, p)
+					if err != nil {
+						return v, err
+					}
+					switch x := v.(type) {
+					case int64:
+						return x + 1000, nil
+					case string:
+						return x + "!", nil
+					}
+					return v, nil
+				}
+			}
+		}
+	}
+	if v, ok := cc.ConstantMap["KI"]; ok && r.Intn(2) == 0 {
+		if x, isInt := v.(int64); isInt {
+			cc.ConstantMap["KI"] = x + 1
+		}
+	}
 }
 
 // c08NilConfig: Compile(nil, src) is compilation with an empty config. A closed program (literals and built-in operators
